@@ -15,7 +15,8 @@ OWN = {
     'C15': ['matching-runs-once-per-scale-coarse-to-fine', 'last-scale-is-full-resolution', 'user-interval-at-each-scale',
             'right-user-interval-at-each-scale', 'coarsest-level-searches-user-interval-over-sf^(n-1)',
             'finer-level-interval-is-sf-times-disparity-range-of-coarser-map', 'each-step-once-per-scale-in-order-left-then-right',
-            'accepted-pipeline-runs-without-error'],
+            'accepted-pipeline-runs-without-error', 'history-other-pipeline-run-before-run-as-configured',
+            'history-other-pipeline-run-before-same-products-as-fresh-machine', 'second-run-same-machine-identical'],
 }
 
 
